@@ -159,9 +159,14 @@ theorem b64_ne_placeholder (bs : Bytes) : b64 bs ≠ placeholder := by
 
 /-! ## size boundary -/
 
+/-- **source atom**: the operator in `_is_file_above_size_limit` means "strictly above" -/
+theorem aboveLimit_def (size : Nat) (lim : Limit) :
+    aboveLimit size lim = decide (lim.num * (2 ^ 20 : Nat) < (size : Int) * lim.den) := by
+  simp [aboveLimit, PlaybackModel.Source.fileAboveCmp, PlaybackModel.Atoms.Cmp.int]
+
 theorem aboveLimit_iff (size : Nat) (lim : Limit) :
     aboveLimit size lim = true ↔ lim.num * (2 ^ 20 : Nat) < (size : Int) * lim.den := by
-  simp [aboveLimit]
+  simp [aboveLimit_def]
 
 /-- for a non-negative limit `n/d`, `L = ⌊n·2^20 / d⌋` bytes is the largest size that is not above the limit -/
 theorem boundary (n d : Nat) (hd : 0 < d) :
@@ -171,9 +176,9 @@ theorem boundary (n d : Nat) (hd : 0 < d) :
     have := Nat.lt_succ_iff.mpr (Nat.le_refl (n * 2 ^ 20 / d))
     exact (Nat.div_lt_iff_lt_mul hd).mp this
   constructor
-  · simp only [aboveLimit, decide_eq_false_iff_not, Int.not_lt]
+  · simp only [aboveLimit_def, decide_eq_false_iff_not, Int.not_lt]
     exact_mod_cast h1
-  · simp only [aboveLimit, decide_eq_true_eq]
+  · simp only [aboveLimit_def, decide_eq_true_eq]
     exact_mod_cast h2
 
 /-- monotone: larger files stay above, smaller files stay below -/
